@@ -7,6 +7,8 @@ package main
 //   C03: after every operation, no account other than the signer lost coins or recorded claims.
 
 import (
+	ethereumkeeper "github.com/KiraCore/sekai/x/ethereum/keeper"
+	ethereumtypes "github.com/KiraCore/sekai/x/ethereum/types"
 	"crypto/sha256"
 	"encoding/hex"
 	custodykeeper "github.com/KiraCore/sekai/x/custody/keeper"
@@ -537,6 +539,23 @@ func c34History(r *Rec, prop string, h int, nBlocks int) {
 			s := r.Rng.Intn(nAcc - 1)
 			other := (s + 1 + r.Rng.Intn(nAcc-2)) % (nAcc - 1)
 			amt := int64(1 + r.Rng.Intn(200000))
+			if r.Rng.Intn(20) == 0 {
+				// x/ethereum MsgRelay: an Ethereum transaction signed with the relayer's own key that carries a bank send -
+				// of the relayer's own coins (honest), or naming ANOTHER account as the sender (must be refused: that account
+				// signed nothing)
+				forged := r.Rng.Intn(2) == 0
+				from := s
+				if forged {
+					from = other
+				}
+				kind := map[bool]string{false: "eth-relay", true: "eth-relay-forged-sender"}[forged]
+				ops = append(ops, c34Op{kind, s, func(ctx sdk.Context) error {
+					msg := w.RelayMsg(s, s, banktypes.NewMsgSend(A[from], A[(s+2)%(nAcc-1)], ukex(amt)))
+					_, err := ethereumkeeper.NewMsgServerImpl(app.EthereumKeeper, app.CustomGovKeeper, app.BankKeeper).Relay(sdk.WrapSDKContext(ctx), msg.(*ethereumtypes.MsgRelay))
+					return err
+				}})
+				continue
+			}
 			x := r.Rng.Intn(100)
 			if x >= 54 && x < 60 {
 				x = 75 // more reward allocations
